@@ -26,7 +26,7 @@ ASSUMPTIONS = C04.ASSUMPTIONS + [
     "a cancelled or never-started fetch takes nothing from the scripted broker (brokers that consume a message and are then cancelled before yielding are outside)",
 ]
 TRUSTED = C04.TRUSTED
-REQUIRED_COVERS = ["malformed", "unknown", "valid", "stop_in_flight", "quota", "stream_end", "unlimited"]
+REQUIRED_COVERS = ["malformed", "malformed_raw", "unknown", "valid", "stop_in_flight", "quota", "stream_end", "unlimited"]
 budget = C04.budget
 coverage_extra = C04.coverage_extra
 
@@ -49,7 +49,7 @@ def cases(tier: str) -> List[Any]:
 
 def harness(c: sym.Ctx, case: Dict[str, Any]) -> None:
     M = case["M"]
-    kinds = [case["k0"]] + [c.choose(_listen.KINDS, f"kind{k}") for k in range(1, M)]
+    kinds = [case["k0"]] + [c.choose(("valid", "unknown", "malformed_raw"), f"kind{k}") for k in range(1, M)]
     cfg = case["cfg"]
     spec = {"M": M, "kinds": kinds, "outcomes": ["return"] * M, "A": "none" if cfg == "noneA" else "sym", "P": "sym",
             "N": "sym" if cfg == "AN" else "none", "wtt": None, "K": case["K"], "prefix": case["prefix"], "stream_end": cfg == "end"}
